@@ -84,6 +84,18 @@ type Sched struct {
 
 var cur *Sched
 
+// ReleasePoints makes pure releases (Unlock, RUnlock) scheduling points too: another thread may
+// run right after the release, which exposes work done after a too-early unlock. Harnesses switch
+// it on where the extra points are affordable.
+var ReleasePoints bool
+
+// ReleasePoint is called by the shims after a release.
+func ReleasePoint(desc string) {
+	if ReleasePoints {
+		Op(nil, 0, desc)
+	}
+}
+
 type abortT struct{}
 
 var abortSentinel = abortT{}
